@@ -43,7 +43,7 @@ ASSUMPTIONS = [
     "counted in probe.any_ambiguous_at_build, not judged",
     "same-instant ordering between events follows creation order (C01)",
 ]
-EXPECTED_PROBES = ["probe.shared_leaf_woke_two", "probe.shared_empty_list_form", "probe.pre_resolved_wait", "probe.resolve_twice", "probe.nested_combinator",
+EXPECTED_PROBES = ["probe.non_native_generator", "probe.future_object_as_value", "probe.shared_leaf_woke_two", "probe.shared_empty_list_form", "probe.pre_resolved_wait", "probe.resolve_twice", "probe.nested_combinator",
                    "probe.hook_on_process", "probe.sub_generator", "probe.any_ambiguous_at_build",
                    "probe.sub_ns_delay_truncated"]
 SHRINK_SKIP = ("futures",)
@@ -152,6 +152,8 @@ def run(sc):
     counters["probe.sub_generator"] = int(any(_has_sub(p["steps"]) for p in sc["procs"]))
     counters["probe.sub_ns_delay_truncated"] = int(any(_tiny(p["steps"]) for p in sc["procs"]))
     counters["probe.shared_empty_list_form"] = int(_shared_empty(sc) >= 2)
+    counters["probe.non_native_generator"] = int(any(p.get("wrap_gen") for p in sc["procs"]))
+    counters["probe.future_object_as_value"] = int("'fut':" in repr(sc))
     counters["probe.parked_forever"] = int(len(ref.waiting) > 0)
     counters[f"loop.{sc.get('loop')}"] = 1
     state = repr((sc.get("loop"), tuple(sorted(k for k, v in counters.items() if k.startswith("probe.") and v))))
